@@ -53,38 +53,39 @@ type inputVar struct {
 }
 
 type Exec struct {
-	eng       *Engine
-	sol       *Solver
-	harness   string
-	globals   map[*ssa.Global]*Value
-	decisions []Dec
-	pos       int
-	alts      [][]Dec
-	pc        []*Term
-	steps     int
-	maxSteps  int
-	depth     int
-	inputs    []inputVar
-	inputSet  map[string]bool
-	obs       []Obs
-	viols     []Violation
-	reached   map[string]bool
-	nameCnt   map[string]int
-	regions   map[string]*Term
-	ufApps    map[string][]ufApp // per UF family, for injectivity axioms
-	side      map[interface{}]interface{}
-	initDone  map[*ssa.Package]bool
-	trace     bool
-	curFrame  *frame
-	idleHooks []Value
-	clock     *Term
-	timers    []*Chan
-	instrs    int
-	inInit    bool
-	unsupp    string
-	freshCnt  int
-	known     map[string]bool
-	mergeBase map[ssa.Value]Value
+	eng        *Engine
+	sol        *Solver
+	harness    string
+	globals    map[*ssa.Global]*Value
+	decisions  []Dec
+	pos        int
+	alts       [][]Dec
+	pc         []*Term
+	steps      int
+	maxSteps   int
+	depth      int
+	inputs     []inputVar
+	inputSet   map[string]bool
+	obs        []Obs
+	viols      []Violation
+	reached    map[string]bool
+	nameCnt    map[string]int
+	regions    map[string]*Term
+	ufApps     map[string][]ufApp // per UF family, for injectivity axioms
+	side       map[interface{}]interface{}
+	initDone   map[*ssa.Package]bool
+	trace      bool
+	curFrame   *frame
+	idleHooks  []Value
+	clock      *Term
+	timers     []*Chan
+	instrs     int
+	inInit     bool
+	unsupp     string
+	freshCnt   int
+	known      map[string]bool
+	mergeBase  map[ssa.Value]Value
+	inCallback bool
 }
 
 type ufApp struct {
@@ -283,6 +284,18 @@ func (ex *Exec) choose(n int) int {
 	ex.decisions = append(ex.decisions, Dec{'s', 0})
 	ex.pos++
 	return 0
+}
+
+// chooseAmong forks over the given candidate values (all believed possible)
+// and returns the chosen one; the decision records the value itself.
+func (ex *Exec) chooseAmong(cands []int) int {
+	for _, c := range cands[1:] {
+		alt := append(slices.Clone(ex.decisions[:ex.pos]), Dec{'s', uint64(c)})
+		ex.alts = append(ex.alts, alt)
+	}
+	ex.decisions = append(ex.decisions, Dec{'s', uint64(cands[0])})
+	ex.pos++
+	return cands[0]
 }
 
 func (ex *Exec) fresh(prefix string, sort Sort) *Term {
@@ -1333,6 +1346,9 @@ func (ex *Exec) selectStmt(fr *frame, instr *ssa.Select) Value {
 	}
 	chosen := -1
 	for {
+		if len(ex.timers) > 0 {
+			ex.fireDueCallbacks()
+		}
 		var ready []int
 		for i, c := range cases {
 			if c.dir == types.RecvOnly {
